@@ -62,14 +62,44 @@ def canon_observed(v):
     return "?" + json.dumps(v)
 
 
-def build(f, ti):
-    """abstract layout + type instantiation -> (pqwrite description, logical rows as canonical strings, type names)"""
+def wrap(v, bits):
+    v &= (1 << bits) - 1
+    return v - (1 << bits) if v >> (bits - 1) else v
+
+
+def big_value(base, i, ptype, conv):
+    """value of row i in a scaled file: the boundary value of its id perturbed by the row number (distinct values,
+    deltas of many bit widths incl. wrap-around, strings with shared prefixes)"""
+    if ptype == "BOOLEAN":
+        return base if i % 3 else not base
+    if ptype in ("INT32", "INT64"):
+        if conv in ("INT_8", "UINT_8"):
+            return base
+        if conv in ("INT_16", "UINT_16"):
+            return base
+        if conv == "DATE":
+            return base + (i * 37) % 1000 if base <= 0 else base - (i * 37) % 1000
+        return wrap(base + (i * 7919) % 100003 * (1 if i % 2 else -3), 32 if ptype == "INT32" else 64)
+    if ptype in ("DOUBLE", "FLOAT"):
+        return base if i % 4 == 0 else float(i) / 8.0
+    if isinstance(base, str):
+        return base[: (i % 5) * 3] + f"-{i % 97:03d}" if i % 7 else base
+    return base[: i % 4] + bytes([i % 256, (i * 3) % 256]) if i % 7 else base
+
+
+def build(f, ti, scale=1):
+    """abstract layout + type instantiation -> (pqwrite description, logical rows as canonical strings, type names).
+    scale > 1 stretches the layout: every cell becomes `scale` rows (cuts move with it), values are perturbed per row."""
     ptype, conv, tname, vals = TYPES[ti]
-    cells = f["cells"]
-    col0 = [None if c == 0 else vals[c - 1] for c in cells]
+    cells = [c for c in f["cells"] for _ in range(scale)]
+    if scale == 1:
+        col0 = [None if c == 0 else vals[c - 1] for c in cells]
+    else:
+        col0 = [None if c == 0 or (i % 11 == 10 and f["optional"] and 0 in f["cells"]) else big_value(vals[c - 1], i, ptype, conv)
+                for i, c in enumerate(cells)]
     # a second, required INT32 column numbering the rows makes row identity / order observable
     rows = [(col0[i], i) for i in range(len(cells))]
-    pcuts, gcuts = set(f["pcuts"]), set(f["gcuts"])
+    pcuts, gcuts = {c * scale for c in f["pcuts"]}, {c * scale for c in f["gcuts"]}
     groups, pages, page = [], [], []
     for i, r in enumerate(rows, 1):
         page.append(r)
@@ -79,9 +109,13 @@ def build(f, ti):
             if i in gcuts or i == len(rows):
                 groups.append({"pages": pages})
                 pages = []
+    enc = f.get("enc", "dict" if f["dict"] else "plain")
     desc = {"columns": [{"name": "v", "type": ptype, "optional": bool(f["optional"]) or any(c == 0 for c in cells), "converted": conv},
                         {"name": "rowno", "type": "INT32", "optional": False}],
-            "row_groups": groups, "page_version": f["ver"], "dictionary": f["dict"], "codec": f["codec"], "level_runs": f["runs"]}
+            "row_groups": groups, "page_version": f["ver"], "dictionary": enc == "dict", "codec": f["codec"], "level_runs": f["runs"],
+            "value_encoding": {"delta": "delta", "delta_prefix": "delta", "bss": "bss"}.get(enc, "plain"),
+            "delta_strings": "prefix" if enc == "delta_prefix" else "length", "delta_junk_widths": (len(cells) + ti) % 2 == 1,
+            "delta_block": (256, 8) if (len(cells) + ti) % 3 == 0 else ((128, 1) if (len(cells) + ti) % 3 == 1 else (128, 4))}
     logical = [[canon_expected(v, ptype, conv), f"i:{i}"] for v, i in rows]
     return desc, logical, [tname, "Int32"]
 
@@ -95,7 +129,7 @@ def run(tier):
         rep.tool_error(f"ParquetLayout MC: {mc.error or mc.violated}")
     else:
         rep.add_tlc(mc, "MC resumable reader over all layouts / NULL patterns / read sizes (N=4)")
-    n, k = (5, 2500) if tier == "quick" else (6, 150)
+    n, k = (5, 6000) if tier == "quick" else (6, 400)
     g = vlib.tlc("GenParquet", f"INIT Init\nNEXT Next\nINVARIANT Emit\nCHECK_DEADLOCK FALSE\nCONSTANTS N = {n}\n SampleK = {k}\n",
                  "C10-gen", workers=6, timeout=1500, heap="8g")
     if g.error:
@@ -109,18 +143,25 @@ def run(tier):
         for ti in tis:
             if TYPES[ti][0] == "BOOLEAN" and f["dict"]:
                 continue
-            desc, logical, tnames = build(f, ti)
-            data, _ = pqwrite.write(desc)
-            path = os.path.join(DIR, f"l{li}_t{ti}.parquet")
-            with open(path, "wb") as fh:
-                fh.write(data)
-            for bs, parts in ((2048, 1), (1, 1), (2, 1), (3, 2)):
-                steps = [{"sql": f"SET partitions = {parts}"}, {"sql": f"SET batch_size = {bs}"},
-                         {"sql": f"SELECT v, rowno FROM read_parquet('{path}')"}]
-                cid = len(cases)
-                cases.append({"id": cid, "rt": {"kind": "threaded", "threads": 2}, "steps": steps, "timeout": 60})
-                meta[cid] = {"layout": f, "type": TYPES[ti][:3], "path": path, "batch_size": bs, "partitions": parts,
-                             "logical": logical, "types": tnames}
+            # every 12th (thorough: 4th) layout is also stretched so that pages hold hundreds of values: DELTA blocks
+            # and miniblocks, dictionary pages and level runs then cross the default batch size inside a page
+            scales = [1]
+            if (li * 5 + ti) % (12 if tier == "quick" else 4) == 0:
+                scales.append([45, 130, 700][(li + ti) % 3])
+            for scale in scales:
+                desc, logical, tnames = build(f, ti, scale)
+                data, _ = pqwrite.write(desc)
+                path = os.path.join(DIR, f"l{li}_t{ti}_s{scale}.parquet")
+                with open(path, "wb") as fh:
+                    fh.write(data)
+                confs = ((2048, 1), (1, 1), (2, 1), (3, 2)) if scale == 1 else ((2048, 1), (100, 1), (33, 2), (8192, 1))
+                for bs, parts in confs:
+                    steps = [{"sql": f"SET partitions = {parts}"}, {"sql": f"SET batch_size = {bs}"},
+                             {"sql": f"SELECT v, rowno FROM read_parquet('{path}')"}]
+                    cid = len(cases)
+                    cases.append({"id": cid, "rt": {"kind": "threaded", "threads": 2}, "steps": steps, "timeout": 60})
+                    meta[cid] = {"layout": f, "type": TYPES[ti][:3], "path": path, "batch_size": bs, "partitions": parts,
+                                 "logical": logical, "types": tnames, "scale": scale}
     res = vlib.Driver(nworkers=14, case_timeout=60).run(cases)
     lines = []
     for c, r in zip(cases, res):
@@ -139,7 +180,16 @@ def run(tier):
                       "keep": [], "obs": obs})
     rep.cov["evaluations"] = len(lines)
     wd = vlib.workdir("C10-tv")
-    chunks = [lines[i:i + 8000] for i in range(0, len(lines), 8000)]
+    chunks, cur, cost = [], [], 0
+    for ln in lines:
+        c = 20 + len(ln["rows"])
+        if cur and cost + c > 150000:
+            chunks.append(cur)
+            cur, cost = [], 0
+        cur.append(ln)
+        cost += c
+    if cur:
+        chunks.append(cur)
     mism = []
 
     def one(ci):
@@ -158,7 +208,7 @@ def run(tier):
         m = meta[mm["mismatch"]]
         f = m["layout"]
         ln = lines[mm["mismatch"]]
-        sig = {"family": "parquet", "why": mm["why"], "type": "/".join(str(x) for x in m["type"]), "dict": f["dict"], "ver": f["ver"],
+        sig = {"family": "parquet", "why": mm["why"], "type": "/".join(str(x) for x in m["type"]), "enc": f.get("enc"), "ver": f["ver"],
                "codec": f["codec"], "runs": f["runs"], "observed": ln["obs"]["outcome"], "msg": vlib.re.sub(r"\d+", "#", m.get("msg", ""))[:120]}
         rep.mismatch(sig, {"path": m["path"], "layout": f, "batch_size": m["batch_size"], "partitions": m["partitions"],
                            "expected": m["logical"], "observed": ln["obs"]})
@@ -167,14 +217,14 @@ def run(tier):
     rep.cov["samples"] = [{"layout": meta[l["id"]]["layout"], "type": meta[l["id"]]["type"], "batch_size": meta[l["id"]]["batch_size"],
                            "observed_rows": l["obs"]["rows"]} for l in lines[:2]]
     rep.cov["rule"] = (f"layouts = a 1/{k} random sample of ALL abstract files with <= {n} cells from GenParquet.tla (every NULL pattern, page and "
-                       "row-group boundaries, v1/v2 pages, dictionary, UNCOMPRESSED/GZIP, RLE / bit-packed / mixed level runs) x physical / "
+                       "row-group boundaries, v1/v2 pages, PLAIN / dictionary / DELTA_BINARY_PACKED / DELTA_LENGTH_BYTE_ARRAY / DELTA_BYTE_ARRAY / BYTE_STREAM_SPLIT values, UNCOMPRESSED/GZIP, RLE / bit-packed / mixed level runs) x physical / "
                        "logical types with boundary values (quick: 2 types per layout, thorough: all 13) written by the independent writer "
-                       "lib/pqwrite.py, read with batch sizes 1, 2, 3 and 2048 and 1-2 partitions; TraceParquet.tla requires the same rows in "
+                       "lib/pqwrite.py, read with batch sizes 1, 2, 3 and 2048 and 1-2 partitions; a subset stretched 45x / 130x / 700x (per-row perturbed values) and read with batch sizes 33, 100, 2048, 8192; TraceParquet.tla requires the same rows in "
                        "file order (bag for 2 partitions), NULL positions and the column types of the type table; non-trivial = the column "
                        "has a page boundary or a NULL")
     rep.cov["exhaustive"] = False
     rep.assumptions += ["byte-level encoding fidelity is relative to the independent writer lib/pqwrite.py (trusted base)",
-                        "encodings DELTA_*, BYTE_STREAM_SPLIT, INT96, FLBA and codecs other than GZIP are not produced by the writer yet"]
+                        "INT96, FIXED_LEN_BYTE_ARRAY, nested columns and codecs other than GZIP are not produced by the writer"]
     return rep.finish()
 
 
